@@ -757,4 +757,4 @@ def run(ctx):
             'folder vs. the run-time range; unconditional execution of the '
             'semantic passes; rounding agreement of all float->int sites. '
             'Does NOT decide value equality of folded results in general '
-            'nor soundness of each peephole rewrite.')
+            'nor soundness of each peephole rewrite. Also: QvmCode.optimize is interpreted on every instruction window of length <= 3 over a representative alphabet and each non-fold rewrite is compared with the original on the CPU handlers (refutation only); fold() returns only literals; the string folder concatenates like the machine; the value tested by can_hold is the value pushed.')
